@@ -261,5 +261,5 @@ def harnesses(tier):
         ("quick-sampler", h_quick, qs, dict(check_timeout_ms=30000)),
         ("simulator-squares", h_simulator_squares, sq),
         ("simulator-squares.raw", h_simulator_squares, sq[::2], dict(raw=True)),
-        ("analyzer.raw", h_analyzer, an[::25], dict(raw=True)),
+        ("analyzer.raw", h_analyzer, [c for c in an if not c["two_inputs"]][::20], dict(raw=True)),
     ]
